@@ -214,7 +214,9 @@ impl PropertyValue {
                     u32::from_le_bytes(bytes[1..5].try_into().expect("slice length checked"))
                         as usize;
                 let mut pos = 5;
-                let mut items = Vec::with_capacity(count);
+                // `count` comes from untrusted input: every item takes at least one byte, so never
+                // reserve more than the input could possibly hold.
+                let mut items = Vec::with_capacity(count.min(bytes.len()));
                 for _ in 0..count {
                     let (item, consumed) = Self::decode_recursive(&bytes[pos..])?;
                     items.push(item);
